@@ -50,7 +50,11 @@ func CombineFromNextProtos(prefix string, chunks []string) (string, error) {
 	for _, chunk := range chunks {
 		// Strip that and the number
 		if strings.HasPrefix(chunk, prefix) {
-			ret += strings.TrimPrefix(chunk, prefix)[3:]
+			rest := strings.TrimPrefix(chunk, prefix)
+			if len(rest) < 3 {
+				return "", fmt.Errorf("(%s) chunk is too short to contain a chunk number", op)
+			}
+			ret += rest[3:]
 		}
 	}
 	return ret, nil
